@@ -32,7 +32,7 @@ func (e *Engine) verifyFunc(key string) (res *FuncResult) {
 	vc := &VC{fn: key}
 	vc.symMark = map[*Term]int{}
 	x := &Exec{eng: e, vc: vc, c: c, top: fi, typedSeen: map[*Term]bool{}, symMark: vc.symMark,
-		inlined: map[string]bool{}, used: map[string]bool{}, wfSeen: map[[2]*Term]bool{}}
+		inlined: map[string]bool{}, used: map[string]bool{}, wfSeen: map[[2]*Term]bool{}, allocSeen: map[[2]*Term]bool{}}
 	x.bv = c.Mode == "bv"
 	x.overflow = c.Overflow
 	x.safety = c.Safety
@@ -290,7 +290,7 @@ func (e *Engine) verifyLemma(l *Lemma) *FuncResult {
 	res := &FuncResult{Key: "lemma." + l.Name}
 	vc := &VC{fn: res.Key}
 	vc.symMark = map[*Term]int{}
-	x := &Exec{eng: e, vc: vc, typedSeen: map[*Term]bool{}, symMark: vc.symMark, inlined: map[string]bool{}, used: map[string]bool{}, wfSeen: map[[2]*Term]bool{}}
+	x := &Exec{eng: e, vc: vc, typedSeen: map[*Term]bool{}, symMark: vc.symMark, inlined: map[string]bool{}, used: map[string]bool{}, wfSeen: map[[2]*Term]bool{}, allocSeen: map[[2]*Term]bool{}}
 	defer func() {
 		res.Obls = vc.obls
 		for _, o := range res.Obls {
